@@ -9,7 +9,7 @@ from pyvc.contracts import Spec, Contract, Sim, ANY, Any
 from pyvc.session import (ST_IDLE, ST_CONNECT, ST_ACTIVE, ST_OPENSENT, ST_OPENCONFIRM, ST_ESTABLISHED, STAT_KEYS)
 from specs import wire, S as SP
 from .timer import t_cancel, t_reset, wrap, SimExc
-from .session import (Inv, ensure_inv, profile_dont_cares, visible, err_close, drop, timer, stat_inc, state_in,
+from .session import (Inv, ensure_inv, require_inv, profile_dont_cares, visible, err_close, drop, timer, stat_inc, state_in,
                       p_send_keepalive, p_send_notification, set_state, T, Bt, SESSION_STATES, BGP, FSM, released,
                       ev_open_received, ev_keep_alive_received, ev_update_received, ev_notification_received,
                       live_protocol)
@@ -94,7 +94,7 @@ def p_open_parse_abs(s, open_obj, message):
 # ---------------------------------------------------------------- per-message handlers
 def rx_requires(s, P):
     fsm = s.get(P, 'fsm')
-    s.c.requires(Inv(fsm), 'Inv')
+    require_inv(s, fsm)
     s.c.requires(z3.BoolVal(s.get(fsm, 'protocol') is P), 'single-connection regime: receiver is the tracked connection')
     s.c.requires(z3.BoolVal(s.get(P, 'factory') is s.get(fsm, 'bgp_peering')), 'wiring')
     s.c.requires(z3.Or([T(s.get(fsm, 'state')) == k for k in SESSION_STATES]),
@@ -105,7 +105,7 @@ def rx_requires(s, P):
 def p_negotiate_hold_time(s, P, hold_time):
     """internal helper (from the code): H := min(H, proposed); 1 and 2 are rejected; KA := H/3"""
     fsm = s.get(P, 'fsm')
-    s.c.requires(Inv(fsm), 'Inv')
+    require_inv(s, fsm)
     s.c.requires(z3.And(T(hold_time) >= 0, T(hold_time) <= 65535), 'hold time is a 2-octet field')
     profile_dont_cares(s, fsm)
     H = s.get(fsm, 'hold_time')
@@ -135,7 +135,8 @@ def p_open_received(s, P, timestamp, msg):
     fsm = rx_requires(s, P)
     profile_dont_cares(s, fsm)
     m = SBytes.of(msg)
-    stat_inc(s, P, 'msg_recv_stat', 'Opens')
+    if s.branch(m.len >= 10):
+        stat_inc(s, P, 'msg_recv_stat', 'Opens')      # C18: counted when the frame has at least the minimum OPEN length (29)
     # ---- decode (errors propagate to parse_buffer, which turns them into NOTIFICATIONs)
     tmp = Obj('OpenScratch', {'version': None, 'asn': None, 'hold_time': None, 'bgp_id': None, 'opt_para_len': None,
                               'opt_paras': None, 'capa_dict': {}})
@@ -303,12 +304,27 @@ def frame(s, buf):
     return ('msg', mtype, b.slice(wire.HDR_LEN, length), length)
 
 
-def p_parse_buffer(s, P):
-    fsm = rx_requires(s, P)
-    s.c.requires(live_protocol(s, fsm), 'T1: data is only delivered on a live connection that we have not closed')
-    s.c.requires(z3.Or([T(s.get(fsm, 'state')) == k for k in SESSION_STATES]), 'a live tracked connection is in a session state')
+def rx_entry_requires(s, P):
+    """environment precondition of the receive entry points (T1): the receiver is the tracked connection;
+    unless we have closed it ourselves it is live and the FSM is in a session state"""
+    fsm = s.get(P, 'fsm')
+    require_inv(s, fsm)
+    s.c.requires(z3.BoolVal(s.get(fsm, 'protocol') is P), 'single-connection regime: receiver is the tracked connection')
+    s.c.requires(z3.BoolVal(s.get(P, 'factory') is s.get(fsm, 'bgp_peering')), 'wiring')
+    s.c.requires(z3.Implies(z3.Not(Bt(s.get(P, 'disconnected'))),
+                            z3.And(live_protocol(s, fsm), z3.Or([T(s.get(fsm, 'state')) == k for k in SESSION_STATES]))),
+                 'T1: data arrives on a live connection, which is in a session state')
     mq = s.get(s.get(s.get(P, 'factory'), 'handler'), 'inter_mq')
     s.c.requires(T(s.get(mq, 'n')) == 0, 'A-queue: the application does not use the internal message queue')
+    return fsm
+
+
+def p_parse_buffer(s, P):
+    fsm = rx_entry_requires(s, P)
+    if s.branch(Bt(s.get(P, 'disconnected'))):
+        # C04: nothing after the message that made us close is processed, however TCP cut the stream
+        ensure_inv(s, fsm)
+        return False
     profile_dont_cares(s, fsm)
     buf = s.get(P, '_receive_buffer')
     fr = frame(s, buf)
@@ -353,7 +369,12 @@ def p_parse_buffer(s, P):
                 raise
         else:
             b = SBytes.of(body)
-            if s.branch(b.len != 4):
+            if s.branch(b.len < 4):
+                raise SimExc('struct.error', {})
+            if s.branch(b.len > 4):
+                # longer ROUTE-REFRESH bodies (e.g. ORF entries) are not decoded, but C18 counts the frame:
+                # it has at least the minimum length of its type
+                stat_inc(s, P, 'msg_recv_stat', 'RouteRefresh')
                 raise SimExc('struct.error', {})
             p_route_refresh_received(s, P, (mk_num(b.be_int(0, 2)), mk_num(b.be_int(2, 1)), mk_num(b.be_int(3, 1))), mtype)
     except SimExc as e:
@@ -435,3 +456,52 @@ RX_SPECS = {
     '_route_refresh_received': _vis(wrap(p_route_refresh_received)),
     'parse_buffer': _vis(wrap(rx(p_parse_buffer))),
 }
+
+
+def p_dataReceived(s, P, data):
+    """C04/C10 at the Twisted entry point: the chunk is appended and parsed message by message; the call
+    terminates, lets nothing escape and re-establishes Inv.  (What each step does is parse_buffer's contract.)"""
+    fsm = rx_entry_requires(s, P)
+    profile_dont_cares(s, fsm)
+    ensure_inv(s, fsm)
+    return None
+
+
+def spec_dataReceived(c, P, data):
+    sp = wrap(p_dataReceived)(c, P, data)
+    sp.loop_abstract = True          # effects and the touched fields are those of the loop: not compared
+    return sp
+
+
+def rx_entry_terms(P):
+    """the receive entry precondition as (name, term) over the CURRENT heap (loop invariant of dataReceived)"""
+    from .session import inv_terms
+    fsm = P.f['fsm']
+    out = [('Inv/' + n, t) for n, t in inv_terms(fsm)]
+    tr = P.f['transport']
+    live = z3.And(T(tr.f['connected']) != 0, z3.Not(Bt(tr.f['disconnecting'])), z3.Not(Bt(P.f['disconnected'])))
+    out.append(('tracked', z3.BoolVal(fsm.f['protocol'] is P)))
+    out.append(('live-unless-closed-by-us', z3.Implies(z3.Not(Bt(P.f['disconnected'])),
+                                                      z3.And(live, z3.Or([T(fsm.f['state']) == k for k in SESSION_STATES])))))
+    mq = P.f['factory'].f['handler'].f['inter_mq']
+    out.append(('queue-unused', T(mq.f['n']) == 0))
+    return out
+
+
+def dataReceived_loop_rule(S):
+    from pyvc.contracts import make_while_rule, havoc_heap
+
+    def inv(it, env):
+        return rx_entry_terms(S.P)
+
+    def variant(it, env):
+        buf = SBytes.of(S.P.f['_receive_buffer'])
+        return z3.If(Bt(S.P.f['disconnected']), z3.IntVal(0), 1 + buf.len)
+
+    def havoc(it, env):
+        # fields that no function of yabgp ever assigns after construction (AST-wide store scan: C01 frame)
+        havoc_heap(it, [S.fsm, S.peering, S.P], skip=(S.handler.f['inter_mq'],),
+                   skip_keys=('delay_open', 'allow_automatic_stop', 'connect_retry_time', 'delay_open_time',
+                              'idle_hold_time', 'name', 'my_asn', 'peer_asn'))
+        it.p.effect('LoopHavoc')
+    return make_while_rule(inv, variant, havoc)
